@@ -53,6 +53,8 @@ type Link struct {
 	StallReads   bool
 
 	Reads, WritesN int
+	FaultFired     bool // an injected read/write fault has fired
+	ClientSawEnd   bool // a Read returned EOF/error or a Write returned an error to the client
 	BytesIn        int // bytes delivered to the client
 }
 
@@ -82,11 +84,15 @@ func (c *Conn) Read(p []byte) (int, error) {
 	}
 	if l.ReadErrAtOp != 0 && l.Reads == l.ReadErrAtOp {
 		l.S.Count("fault.read-error")
+		l.FaultFired = true
+		l.ClientSawEnd = true
 		l.S.Logf("net%d read#%d -> injected error", l.ID, l.Reads)
 		return 0, &net.OpError{Op: "read", Net: "sim", Err: ErrReset}
 	}
 	if l.EOFAtOp != 0 && l.Reads == l.EOFAtOp {
 		l.S.Count("fault.read-eof-at-op")
+		l.FaultFired = true
+		l.ClientSawEnd = true
 		l.S.Logf("net%d read#%d -> injected EOF", l.ID, l.Reads)
 		l.s2cEOF = true
 		l.s2c = nil
@@ -134,6 +140,7 @@ func (c *Conn) Read(p []byte) (int, error) {
 		}
 		return n, nil
 	}
+	l.ClientSawEnd = true
 	if l.rdErr != nil {
 		l.S.Logf("net%d read#%d -> error %v", l.ID, l.Reads, l.rdErr)
 		return 0, &net.OpError{Op: "read", Net: "sim", Err: l.rdErr}
@@ -149,6 +156,7 @@ func (c *Conn) Write(p []byte) (int, error) {
 		return 0, &net.OpError{Op: "write", Net: "sim", Err: ErrClosed}
 	}
 	if l.rdErr != nil {
+		l.ClientSawEnd = true
 		return 0, &net.OpError{Op: "write", Net: "sim", Err: ErrWrite}
 	}
 	if l.WriteErrAtOp != 0 && l.WritesN == l.WriteErrAtOp {
@@ -159,6 +167,8 @@ func (c *Conn) Write(p []byte) (int, error) {
 			l.appendC2S(p[:n])
 		}
 		l.S.Count("fault.write-error")
+		l.FaultFired = true
+		l.ClientSawEnd = true
 		l.S.Logf("net%d write#%d -> injected error after %d bytes", l.ID, l.WritesN, n)
 		return n, &net.OpError{Op: "write", Net: "sim", Err: ErrWrite}
 	}
@@ -171,6 +181,7 @@ func (c *Conn) Write(p []byte) (int, error) {
 			return 0, &net.OpError{Op: "write", Net: "sim", Err: ErrClosed}
 		}
 		if l.rdErr != nil {
+			l.ClientSawEnd = true
 			return 0, &net.OpError{Op: "write", Net: "sim", Err: ErrWrite}
 		}
 	}
